@@ -19,7 +19,7 @@ static long gen_api(const std::string& op, int i, int j, const std::string& fmt)
     }
     if (op == "move" || op == "moveassign") {
         // backmp11: move construction / move assignment, then the moved-from machine is destroyed.
-        // back / back11 have no move operations: the same call is a copy, and the source object is retired (kept alive, see F6).
+        // back / back11 have no move operations: the same call is a copy and the source object stays alive (see F6).
         static std::vector<std::unique_ptr<Top>> retired;
         Top& src = inst(i);
 #if defined(VCFG_MP11)
@@ -31,7 +31,8 @@ static long gen_api(const std::string& op, int i, int j, const std::string& fmt)
         if (op == "move") { if (v[j]) retired.push_back(std::move(v[j])); v[j].reset(new Top(static_cast<const Top&>(src))); }
         else { Top& dst = inst(j); dst = static_cast<const Top&>(src); }
         gen_stamp(*v[j], j);
-        retired.push_back(std::move(v[i]));
+        // the source stays where it is: closures it created (F6) may still run on it and address it through its slot;
+        // the scripts never use a moved-from slot again
 #endif
         return 0;
     }
